@@ -2,7 +2,7 @@
     [Generated/transforms.v] is produced on every run by tools/tiea/transforms.py (expression translator
     tools/rsexpr.py) from src/functions/statistical.rs.  Each lemma states that the generated term and the model's
     function are the same function for EVERY carrier and operations record (conversion and case splits on the
-    booleans only; no algebraic law).  The model shares the two Box-Cox branches in [boxcox_body] and writes the
+    booleans only; no algebraic law).  The model shares the two Box-Cox branches (and the [let]s of the source) in [boxcox_body] and writes the
     guards positively ([if ok then Some .. else None]); the source panics first ([if !ok { panic!() }]). *)
 From Coq Require Import List Bool.
 From Compute Require Import Base.Ops Base.RsExpr Model.Transforms Generated.transforms Proofs.TieA_tac.
@@ -14,7 +14,7 @@ Section TieA.
   Lemma tiea_logit : forall p, src_logit O p = logit O p.
   Proof. intro p. unfold src_logit, logit. tiea_cases. Qed.
   Lemma tiea_boxcox : forall x lambda, src_boxcox O x lambda = boxcox O x lambda.
-  Proof. intros x lambda. unfold src_boxcox, boxcox, boxcox_body. tiea_cases. Qed.
+  Proof. intros x lambda. unfold src_boxcox, boxcox, boxcox_body, ln_. cbv zeta. tiea_cases. Qed.
   Lemma tiea_boxcox_shifted : forall x lambda alpha, src_boxcox_shifted O x lambda alpha = boxcox_shifted O x lambda alpha.
-  Proof. intros x lambda alpha. unfold src_boxcox_shifted, boxcox_shifted, boxcox_body. tiea_cases. Qed.
+  Proof. intros x lambda alpha. unfold src_boxcox_shifted, boxcox_shifted, boxcox_body, ln_. cbv zeta. tiea_cases. Qed.
 End TieA.
